@@ -17,7 +17,7 @@ def run(tier, seed):
         jobs.append(Job("c16", "asan", be, {"mode": "rc"}, env={"ASAN_OPTIONS": ASAN}, rc_params=core.rc_params(core.splitmix(seed, i), n), label="asan %s" % be))
     for i, be in enumerate(("spqlios-fma", "nayuki-avx")):
         jobs.append(Job("c16", "asan-native", be, {"mode": "rc"}, env={"ASAN_OPTIONS": ASAN}, rc_params=core.rc_params(core.splitmix(seed, 10 + i), n), label="asan-native %s" % be))
-    jobs.append(Job("c16", "asan", "spqlios-fma", {"mode": "rc", "big": 1, "maxsteps": 6}, env={"ASAN_OPTIONS": ASAN}, rc_params=core.rc_params(core.splitmix(seed, 20), 10 if q else 60), label="asan big (n>=500, n>N, default sets)", weight=2))
+    jobs.append(Job("c16", "asan", "spqlios-fma", {"mode": "rc", "big": 1, "maxsteps": 6}, env={"ASAN_OPTIONS": ASAN}, rc_params=core.rc_params(core.splitmix(seed, 20), 12 if q else 60), label="asan big (n>=500, n>N, default sets)", weight=2))
     # (2) uninitialised reads that influence a result: the same seeded lifecycles with two allocation fill bytes must give identical outputs
     pairs = []
     for i, be in enumerate(("spqlios-fma", "fftw") if q else build.BACKENDS):
